@@ -138,10 +138,37 @@ func firstJSON(o geojson.Object) string {
 	return s
 }
 
+// decoys: other objects of every kind, serialised between obtaining a byte slice from the object under
+// test and comparing it (a serialiser handing out a pooled / shared buffer shows here)
+var jsonDecoys []geojson.Object
+
+func init() {
+	for _, t := range []string{
+		`{"type":"FeatureCollection","features":[{"type":"Feature","geometry":{"type":"Point","coordinates":[9,9]},"properties":{"decoy":true}}]}`,
+		`{"type":"GeometryCollection","geometries":[{"type":"LineString","coordinates":[[7,7],[8,8]]}]}`,
+		`{"type":"Feature","geometry":{"type":"Polygon","coordinates":[[[0,0],[3,0],[3,3],[0,3],[0,0]]]},"properties":{"d":[1,2,3]}}`,
+		`{"type":"MultiPolygon","coordinates":[[[[0,0],[5,0],[5,5],[0,0]]]]}`,
+		`{"type":"Point","coordinates":[123.456,-65.4321]}`,
+	} {
+		if o, err := geojson.Parse(t, &geojson.ParseOptions{AllowRects: true}); err == nil {
+			jsonDecoys = append(jsonDecoys, o)
+		}
+	}
+}
+
 func objJSONCheck(o geojson.Object) string {
 	j := o.JSON()
 	mj, err := o.MarshalJSON()
-	same := err == nil && o.String() == j && string(mj) == j && string(o.AppendJSON(nil)) == j
+	aj := o.AppendJSON(nil)
+	for _, d := range jsonDecoys {
+		_ = d.JSON()
+		_, _ = d.MarshalJSON()
+		_ = d.String()
+		_ = d.AppendJSON(nil)
+	}
+	// compare the slices obtained BEFORE the decoys ran first: a later call on o itself could rewrite a shared buffer with the right bytes
+	held := string(mj) == j && string(aj) == j
+	same := err == nil && held && o.String() == j && string(o.AppendJSON(nil)) == j
 	// AppendJSON(prefix) = prefix ++ json, and the prefix's visible bytes are untouched,
 	// with no, some and ample spare capacity
 	appendOK := true
